@@ -108,16 +108,7 @@ def check(rep, an, tier):
         res = an.run(f"{EST}.{name}", kws=kw, self_fields=dict(fields), config="query")
         entry = f"ReceptorEstimator.{name}"
         n_query += 1
-        stores = res.events("self_store")
-        if stores:
-            for ev in stores[:3]:
-                rep.violated("R-EFFECT", "query has an empty write set", where=ev.loc, construct=ev.text(), entry=entry, config="query",
-                             msg=f"`{name}` is not a registration or an internal-mode fit, yet it assigns self.{ev.d['attr']}"
-                                 f" (reached via {' → '.join(q.split('.')[-1] for q in ev.path)}): answers to later queries depend on the "
-                                 f"history of queries (cached state)")
-        else:
-            rep.holds("R-EFFECT", "query has an empty write set", where=fn.loc(), construct=f"write set of {name}", entry=entry,
-                      config="query", msg="∅")
+        R.rule_effect_free(rep, res, entry, reg=registration_writes(an), what=f"`{name}` is not a registration or an internal-mode fit")
         if not plot:
             R.rule_purity(rep, res, entry)
         else:
@@ -136,28 +127,13 @@ def check(rep, an, tier):
             vres = an.run(f"{EST}.{name}", kws=vkw, self_fields=vfields, config=vlabel)
             if "seed" in vkw:
                 unseeded(rep, vres, entry)
-            for ev in vres.events("self_store")[:3]:
-                rep.violated("R-EFFECT", "query has an empty write set", where=ev.loc, construct=ev.text(), entry=entry, config=vlabel,
-                             msg=f"`{name}` [{vlabel}] assigns self.{ev.d['attr']}")
+            if vres.events("self_store"):
+                R.rule_effect_free(rep, vres, entry, reg=registration_writes(an), what=f"`{name}` [{vlabel}]")
             R.rule_purity(rep, vres, entry)
             R.rule_no_global_state(rep, vres, entry)
             global_rng(rep, vres, entry)
     # ------------------------------------------------------------ registrations: exact write sets on every path
-    reg_cfgs = {
-        "register_uncertainty": [("given", dict(filters_uncertainty=arr("filters_uncertainty", S("F", "D"), {"phi": 1}))),
-                                 ("None", dict(filters_uncertainty=none()))],
-        "register_adaptation": [("K", dict(K=arr("K", S("F"), U_K)))],
-        "register_baseline": [("baseline", dict(baseline=arr("baseline", S("F"), U_CAPTURE)))],
-        "register_background_adaptation": [(f"add_baseline={ab},add={ad}", dict(background=arr("background", S("D"), U_SIGNAL), domain=none(),
-                                                                             add_baseline=flag("add_baseline", ab), add=flag("add", ad)))
-                                           for ab in (True, False) for ad in (True, False)],
-        "register_system_adaptation": [(f"add_baseline={ab},add={ad}", dict(x=arr("x", S("SRC"), U_INT), add_baseline=flag("add_baseline", ab),
-                                                                         add=flag("add", ad))) for ab in (True, False) for ad in (True, False)],
-        "register_system": [(f"Epsilon={e},unc={u}", dict(sources=arr("sources", S("SRC", "D"), U_SIGNAL), domain=none(), lb=none(), ub=none(),
-                                                          labels=none(), Epsilon=(none() if e is None else arr("Epsilon", S("F", "SRC"), {"c": 2, "s": -2}))))
-                            for e in (None, "given") for u in ("given",)],
-        "register_targets": [("W given", dict(B=B_(), W=arr("W", S("N", "F"), U_W, sign="NONNEG"))), ("W=None", dict(B=B_(), W=none()))],
-    }
+    reg_cfgs = reg_configs()
     for name, cfgs in reg_cfgs.items():
         if name not in methods:
             raise R.AnalysisError(f"anchor lost: {CLS}.{name}")
@@ -190,7 +166,10 @@ def check(rep, an, tier):
                           entry=entry, config=label,
                           msg=f"the stored self.{a_} is computed from the previously registered {old}: registering the same values in a "
                               f"different order / after other registrations yields a different estimator")
-            extra = written - want
+            # resetting a cache attribute (an undeclared `_name` set to a constant / empty container) is not a write of registered state
+            resets = {a_ for a_ in written - want if a_.startswith("_") and a_ not in fields
+                      and all(not ev.d["val"].flat().data for ev in top if ev.d["attr"] == a_)}
+            extra = written - want - resets
             rep.check("R-EFFECT", f"{name} writes only its own group", not extra, where=res.fn.loc(), construct=f"write set of {name} [{label}]",
                       entry=entry, config=label, msg=f"also writes {sorted(extra)}")
             if name == "register_system":
@@ -208,12 +187,17 @@ def check(rep, an, tier):
         label = f"lb={'given' if lbg else None},ub={'given' if ubg else None}"
         res = an.run(f"{EST}.register_bounds", kws=kw, self_fields=dict(fields), config=label)
         entry = "ReceptorEstimator.register_bounds"
-        written = {ev.d["attr"] for ev in res.events("self_store")}
+        stores_ = res.events("self_store")
+        resets = {a_ for a_ in {ev.d["attr"] for ev in stores_} if a_.startswith("_") and a_ not in fields
+                  and all(not ev.d["val"].flat().data for ev in stores_ if ev.d["attr"] == a_)}       # cache attributes set to a constant
+        written = {ev.d["attr"] for ev in stores_} - resets
         want = ({"lb"} if lbg else set()) | ({"ub"} if ubg else set())
         rep.check("R-EFFECT", "register_bounds writes a bound iff it is given", written == want, where=res.fn.loc(),
                   construct=f"write set of register_bounds [{label}]", entry=entry, config=label,
                   msg=f"writes {sorted(written)} but only {sorted(want)} was given: the bound that was not passed is silently reset")
         for ev in res.events("self_store"):
+            if ev.d["attr"] in resets:
+                continue
             v = ev.d["val"].flat()
             rep.check("R-FLOW", f"self.{ev.d['attr']} ← the given {ev.d['attr']}", ev.d["attr"] in v.data, where=ev.loc, construct=ev.text(),
                       entry=entry, config=label)
@@ -296,3 +280,48 @@ def rebinds(rep, res, entry, label):
                          entry=entry, config=label,
                          msg=f"self.{ev.d['attr']}[…] = … writes into the array registered earlier: np.asarray / ensure_value keep the caller's "
                              f"ndarray without copying, so the caller's array (and every estimator sharing it) is overwritten")
+
+
+def reg_configs():
+    return {
+        "register_uncertainty": [("given", dict(filters_uncertainty=arr("filters_uncertainty", S("F", "D"), {"phi": 1}))),
+                                 ("None", dict(filters_uncertainty=none()))],
+        "register_adaptation": [("K", dict(K=arr("K", S("F"), U_K)))],
+        "register_baseline": [("baseline", dict(baseline=arr("baseline", S("F"), U_CAPTURE)))],
+        "register_background_adaptation": [(f"add_baseline={ab},add={ad}", dict(background=arr("background", S("D"), U_SIGNAL), domain=none(),
+                                                                             add_baseline=flag("add_baseline", ab), add=flag("add", ad)))
+                                           for ab in (True, False) for ad in (True, False)],
+        "register_system_adaptation": [(f"add_baseline={ab},add={ad}", dict(x=arr("x", S("SRC"), U_INT), add_baseline=flag("add_baseline", ab),
+                                                                         add=flag("add", ad))) for ab in (True, False) for ad in (True, False)],
+        "register_system": [(f"Epsilon={e},unc={u}", dict(sources=arr("sources", S("SRC", "D"), U_SIGNAL), domain=none(), lb=none(), ub=none(),
+                                                          labels=none(), Epsilon=(none() if e is None else arr("Epsilon", S("F", "SRC"), {"c": 2, "s": -2}))))
+                            for e in (None, "given") for u in ("given",)],
+        "register_targets": [("W given", dict(B=B_(), W=arr("W", S("N", "F"), U_W, sign="NONNEG"))), ("W=None", dict(B=B_(), W=none()))],
+    }
+
+
+def registration_writes(an):
+    """{registration method: fields it may write (any path)} — computed once per analyser from the registration configurations;
+    used to decide whether a field written by a QUERY (a cache) is reset by every registration that changes what it was computed from"""
+    if getattr(an, "_reg_writes", None) is not None:
+        return an._reg_writes
+    fields = estimator_fields(K="vec", baseline="vec", uncertainty="given", Epsilon="array")
+    out = {}
+    cfgs = dict(reg_configs())
+    cfgs["register_bounds"] = [("both", dict(lb=arr("lb", S("SRC"), U_INT), ub=arr("ub", S("SRC"), U_INT)))]
+    for name, cs in cfgs.items():
+        w = None
+        for label, kw in cs:
+            f = dict(fields)
+            if name == "register_system":
+                for k in ("A", "Epsilon", "sources", "sources_domain", "lb", "ub", "sources_labels"):
+                    f.pop(k, None)
+            try:
+                res = an.run(f"{EST}.{name}", kws=kw, self_fields=f, config="write-set:" + label)
+            except Exception:
+                continue
+            ws = {ev.d["attr"] for ev in res.events("self_store")}
+            w = ws if w is None else (w & ws)          # written in EVERY configuration of that registration
+        out[name] = w or set()
+    an._reg_writes = out
+    return out
